@@ -692,7 +692,7 @@ static int mode_gen(unsigned long seed, long count, const std::string &outp) {
 		std::ostringstream acc;
 		auto emit = [&](json ev) { ev["run"] = i; acc << ev.dump() << "\n"; };
 		int what = (int)(i % 8);
-		Sizes sz; sz.F = F; sz.G = G; sz.le = 1 + (unsigned long)(seam::next64() % 3); sz.n = 1 + (size_t)(seam::next64() % 3); sz.canon = false;
+		Sizes sz; sz.F = F; sz.G = G; sz.le = 1 + (unsigned long)(seam::next64() % (G / 2));   // 2 l_e <= |q| (a configuration the class accepts) sz.n = 1 + (size_t)(seam::next64() % 3); sz.canon = false;
 		if (what == 0 || what == 1) {
 			// VTMF group (what=1: verifiable generator), key generation, then every class that is built from (p,q,g,h)
 			sz.canon = (what == 1);
@@ -720,7 +720,7 @@ static int mode_gen(unsigned long seed, long count, const std::string &outp) {
 			  json e2; e2["e"] = "Gen"; e2["cls"] = "vsshe"; e2["via"] = "from-vtmf"; e2["v"] = vjson("com", sz); e2["t"] = tuple_of(&b, "com", sz.n); e2["cg"] = b.cg();
 			  e2["eq"] = zj(b.o->q); emit(e2);
 			  Mpz coin; mpz_set_ui(coin, (unsigned long)(seam::next64() % 100000)); b.o->SetupGenerators_publiccoin(coin);
-			  json e3; e3["e"] = "Setup"; e3["cls"] = "vsshe"; e3["v"] = vjson("com", sz); e3["a"] = zj(coin); e3["t"] = tuple_of(&b, "com", sz.n); e3["cg"] = b.cg(); e3["eq"] = zj(b.o->q); emit(e3);
+			  json e3; e3["e"] = "Setup"; e3["cls"] = "vsshe"; e3["v"] = vjson("com", sz); e3["a"] = zj(coin); e3["noh"] = true; e3["t"] = tuple_of(&b, "com", sz.n); e3["cg"] = b.cg(); e3["eq"] = zj(b.o->q); emit(e3);
 			  b.done(); }
 			a.done();
 		} else if (what == 2) {
